@@ -685,6 +685,24 @@ def cmpval(t):
 
 
 def ev_comp(ctx, node, env):
+    if getattr(ctx, "unroll", 0) and len(node.generators) == 1:
+        g = node.generators[0]
+        items = iter_items(ev(ctx, g.iter, env))
+        if items is not None and len(items) <= ctx.unroll:
+            out = []
+            for item in items:
+                env2 = dict(env)
+                assign(ctx, g.target, item, env2)
+                keep = [fold_bool(ev(ctx, c, env2)) for c in g.ifs]
+                if all(k == ("bool", True) for k in keep):
+                    out.append(ev(ctx, node.elt, env2))
+                elif any(k == ("bool", False) for k in keep):
+                    continue
+                else:
+                    out = None
+                    break
+            if out is not None:
+                return ("list",) + tuple(out)
     ctx.loop_counter += 1
     lid = ctx.loop_counter
     env2 = dict(env)
@@ -876,6 +894,16 @@ def ev_call(ctx, node, env):
             return T.call("int", numval(args[0]))
         if name == "round":
             return T.call("round", *[numval(a) for a in args])
+        if name in ("max", "min") and args and not kws:
+            seq = list(args[0][1:]) if len(args) == 1 and args[0][0] in ("tuple", "list") else list(args) if len(args) > 1 else None
+            if seq and all(x[0] == "num" for x in seq):
+                return (max if name == "max" else min)(seq, key=lambda x: x[1])
+        if name in ("list", "tuple") and len(args) == 1 and args[0][0] in ("tuple", "list"):
+            return (name,) + tuple(args[0][1:])
+        if name in ("all", "any") and len(args) == 1 and args[0][0] in ("tuple", "list"):
+            vals = [fold_bool(x) for x in args[0][1:]]
+            if all(v[0] == "bool" for v in vals):
+                return ("bool", (all if name == "all" else any)(v[1] for v in vals))
         if name == "sorted" and len(args) == 1 and not kws and args[0][0] in ("tuple", "list") and all(x[0] == "num" for x in args[0][1:]):
             return ("list",) + tuple(sorted(args[0][1:], key=lambda x: x[1]))
         if name == "len" and len(args) == 1 and args[0][0] in ("tuple", "list"):
@@ -897,6 +925,9 @@ def ev_call(ctx, node, env):
                     return T.call("red", *args)
                 return repo_call(ctx, tgt + "." + meth, args, kws, star_kw)
         recv = ev(ctx, f.value, env)
+        if recv[0] in ("list", "tuple") and meth == "index" and len(args) == 1 and args[0] in recv[1:] \
+                and all(x[0] in ("num", "sym") for x in recv[1:]):
+            return T.num(recv[1:].index(args[0]))          # position in a literal list of distinct atoms
         if recv[0] == "dict" and meth in ("keys", "values") and not args:
             return ("list",) + tuple((k if meth == "keys" else v) for k, v in recv[1])
         if recv[0] == "dict" and meth == "get" and args and args[0][0] == "str":
